@@ -107,6 +107,9 @@ def eval_obj(M, rho, o):
     return s ** o[2]
 
 
+_BUDGET = None
+
+
 def eval_term(M, rho, term, limit=2_000_000):
     coef, objs, contr = term
     ranges = [adm(M.orbs, c) for c in contr]
@@ -158,31 +161,62 @@ def random_assignment(M, free, rng):
     return rho
 
 
-_BUDGET = None
+SMALL_ORBS = [
+    None,   # the caller's / default model
+    [(True, True), (True, False), (False, True), (False, False)],
+    [(True, True), (False, True), (False, False)],
+    [(True, True), (False, True)],
+]
+
+
+def expr_cost(orbs, expr):
+    tot = 0
+    for coef, objs, contr in expr:
+        n = 1
+        for c in contr:
+            n *= max(1, len(adm(orbs, c)))
+        tot += n * max(1, len(objs))
+    return tot
 
 
 def find_difference(e1, e2, seeds=(0, 1, 2), n_assign=6, extra_laws=None, orbs=None, scale=Fraction(1), budget=2_000_000):
     """look for (model seed, assignment) with eval(e1) != scale*eval(e2); returns dict or None.
-    budget: bound on the total number of (assignment x object) evaluations of this call"""
+    budget: bound on the number of (assignment x object) evaluations per orbital model; when the expressions are too
+    large for the given orbital model, smaller models are tried (spin labels permitting)"""
     global _BUDGET
-    _BUDGET = budget
     free = sorted(set(free_indices(e1)) | set(free_indices(e2)))
-    for s in seeds:
-        M = TensorModel(seed=s, extra_laws=extra_laws, orbs=orbs)
-        rng = random.Random(1000 + s)
-        for _ in range(n_assign):
-            rho = random_assignment(M, free, rng)
-            if rho is None:
-                break
-            try:
-                v1 = eval_expr(M, rho, e1)
-                v2 = scale * eval_expr(M, rho, e2)
-            except (ZeroDivisionError, OverflowError):
-                continue
-            if v1 != v2:
-                return {"model_seed": s, "orbs": M.orbs,
-                        "assignment": [[list(i), o] for i, o in sorted(rho.items())],
-                        "value_1": str(v1), "value_2": str(v2)}
-            if not free:
-                break
+    # sums over a Kronecker delta are carried out first (same rule as Adc.elimDelta; only to make the search cheaper)
+    from cert import eliminate_deltas
+    e1 = [eliminate_deltas(t)[0] for t in e1]
+    e2 = [eliminate_deltas(t)[0] for t in e2]
+    tried = False
+    for cand in SMALL_ORBS:
+        ob = cand or orbs or DEFAULT_ORBS
+        if any(not adm(ob, i) for t in list(e1) + list(e2) for i in t[2]) or any(not adm(ob, i) for i in free):
+            continue
+        cost = expr_cost(ob, e1) + expr_cost(ob, e2)
+        if cost * 2 > budget and cand is not SMALL_ORBS[-1]:
+            continue
+        tried = True
+        for s in seeds:
+            _BUDGET = budget
+            M = TensorModel(seed=s, extra_laws=extra_laws, orbs=ob)
+            rng = random.Random(1000 + s)
+            for _ in range(n_assign):
+                rho = random_assignment(M, free, rng)
+                if rho is None:
+                    break
+                try:
+                    v1 = eval_expr(M, rho, e1)
+                    v2 = scale * eval_expr(M, rho, e2)
+                except (ZeroDivisionError, OverflowError):
+                    continue
+                if v1 != v2:
+                    return {"model_seed": s, "orbs": M.orbs,
+                            "assignment": [[list(i), o] for i, o in sorted(rho.items())],
+                            "value_1": str(v1), "value_2": str(v2)}
+                if not free:
+                    break
+        if tried:
+            break
     return None
